@@ -31,6 +31,7 @@ def gen_plan(seed, i, tier):
         if s['nv'] > 300:
             s['nv'], s['nt'] = 20, 20
         init = {'builder': {'version': ver, 'salt': rng.below(1 << 30), 'nodes': rng.below(3), 'shapes': [s]}}
+        hist.maybe_attach(rng, init, 0.4)
     elif r < 85:
         types = synth.block_types()
         t = rng.choice(types)
